@@ -23,7 +23,7 @@ use crate::{
     ensure_that, fail,
     fixtures::{
         problems::{BitsP, Instrumented, RealKind, RealP, TspP},
-        run::{dispatch, run_observed, run_spec_strategy, walk_individuals, Audit, EvalKind, Phase, RunSpec, RunVisitor, StepEv},
+        run::{run_observed_auto, dispatch, run_observed, run_spec_strategy, walk_individuals, Audit, EvalKind, Phase, RunSpec, RunVisitor, StepEv},
         state_with,
     },
     props::c16::TEMPLATE_NAMES,
@@ -427,7 +427,7 @@ impl RunVisitor for V5 {
         let tpl = spec.tpl.name();
         let Ok(cfg) = cfg else { return Ok(()) }; // constructor failures are C16's subject
         let audit = Arc::new(Mutex::new(A5 { tpl, ..Default::default() }));
-        let _ = run_observed(&cfg, &problem, spec.seed, EvalKind::Sequential, audit.clone());
+        let _ = run_observed_auto(&cfg, &problem, spec.seed, EvalKind::Sequential, audit.clone());
         let a = audit.lock().unwrap();
         if a.steps_with_change > 0 {
             self.classes |= 1;
